@@ -130,6 +130,9 @@ pub fn entry_decision<const ALG: u8, const H: usize, const N: usize, const K: u8
     kani::assume(ALG < PREFIX || (no_vt(&i.hay) && no_vt(&i.needle)));
     let mut m = small_matcher(i.cfg.clone(), crate::fuzzy_optimal::verif_optimal::SLAB);
     let r = call::<ALG, false>(&mut m, &i.hay, &i.needle, &mut Vec::new());
+    // frame: a call must not change the configuration (C10: the result of later calls depends only
+    // on their arguments and the configuration the caller set)
+    assert!(m.config == i.cfg, "the call leaves the matcher's configuration untouched");
     let spec = spec_relation::<ALG, H, N>(&i);
     assert!(r.is_some() == spec.is_some(), "the entry point succeeds exactly when the documented relation holds");
     if N == 0 {
@@ -148,6 +151,7 @@ pub fn entry_witness<const ALG: u8, const H: usize, const N: usize, const K: u8>
     let mut idx = Vec::with_capacity(N + 2);
     idx.push(p0);
     let r = call::<ALG, true>(&mut m, &i.hay, &i.needle, &mut idx);
+    assert!(m.config == i.cfg, "the call leaves the matcher's configuration untouched");
     let spec = spec_relation::<ALG, H, N>(&i);
     assert!(r.is_some() == spec.is_some(), "the indices entry point succeeds exactly when the documented relation holds");
     assert!(idx[0] == p0, "earlier content of the indices vector is untouched");
